@@ -70,18 +70,26 @@ def overwrite (X : Ctx) : Nat → Nat → Nat → List SeqItem → VM (Except Un
         overwrite X fuel (i + 1) n sc'
     else pure (.ok true, sc)
 
-def deserialize_in_place (X : Ctx) (hint : Option Nat) (sc : List SeqItem) : VM Bool := do
-  let h ← lift X (GM.liftE (Gen.map_size_hint X.env hint))
-  let len ← lift X (Gen.len X.env)
+/-- `values.reserve(hint.saturating_sub(len))` as the code writes it: nothing when the capped hint is not larger -/
+def reserveHint (X : Ctx) (h len : Nat) : VM Unit :=
   match checkedSub h len with
   | some add => Vec.reserve X add
   | none => pure ()
+
+/-- the two loops of `deserialize_in_place` after the reservation -/
+def inPlaceBody (X : Ctx) (sc : List SeqItem) : VM Bool := do
   let n ← lift X (Gen.len X.env)
   let (r, sc') ← overwrite X (n + 1) 0 n sc
   match r with
   | .error _ => pure false
   | .ok false => pure true
   | .ok true => pushRest X (sc'.length + 1) sc'
+
+def deserialize_in_place (X : Ctx) (hint : Option Nat) (sc : List SeqItem) : VM Bool := do
+  let h ← lift X (GM.liftE (Gen.map_size_hint X.env hint))
+  let len ← lift X (Gen.len X.env)
+  reserveHint X h len
+  inPlaceBody X sc
 
 end Serde
 end MV
